@@ -123,6 +123,16 @@ func (c *Case) topicName(t Topic) string {
 func isStreamTopic(name string) bool { return strings.HasPrefix(name, "stream/") }
 
 // ---------------------------------------------------------------- Coq emitters
+// a rule key is emitted with its NAME and number and the model decides whether it is the reserved word;
+// the default names stream/s<n> go by number alone (sid_plain), which keeps wide cases small
+func (c *Case) streamCoq(s int) string {
+	name := c.sname(s)
+	if s != 0 && name == fmt.Sprintf("stream/s%d", s) {
+		return lib.App("sid_plain", lib.N(uint64(s)))
+	}
+	return lib.App("stream_of_name", lib.Str(name), lib.N(uint64(s)))
+}
+
 // a client is emitted with its topic NAME; the model decides whether that is a stream
 func (c *Case) clientCoq(i int) string {
 	t := c.Topics[i-1]
@@ -146,9 +156,9 @@ func (c Case) coq() string {
 		case "Unreg":
 			ops[i] = lib.App("Unregister", c.clientCoq(o.C))
 		case "Add":
-			ops[i] = lib.App("AddRule", lib.N(uint64(o.S)), ns(o.F))
+			ops[i] = lib.App("AddRule", c.streamCoq(o.S), ns(o.F))
 		case "Del":
-			ops[i] = lib.App("Delete", lib.N(uint64(o.S)))
+			ops[i] = lib.App("Delete", c.streamCoq(o.S))
 		case "DelAll":
 			ops[i] = "DeleteAll"
 		case "B":
@@ -467,7 +477,7 @@ func genHistory(r *lib.Rng, kind string) Case {
 		return fs
 	}
 	stream := func() int {
-		if kind == "malformed" && r.Chance(1, 5) {
+		if (kind == "malformed" && r.Chance(1, 5)) || (len(c.StreamNames) > 3 && c.StreamNames[3] != "" && r.Chance(1, 6)) {
 			return 3 // a stream nobody subscribes to
 		}
 		return r.Range(1, 2)
@@ -546,9 +556,15 @@ func nameShapes(r *lib.Rng, c *Case) {
 			streams = append(streams[:k], streams[k+1:]...)
 		}
 	}
-	// the stream nobody subscribes to may have a name that is not a stream name at all
-	if r.Chance(1, 2) && len(feeds) > 0 {
-		c.StreamNames[3] = feeds[r.Intn(len(feeds))]
+	// the stream nobody subscribes to may have a name that is not a stream name at all, or one near
+	// the reserved word of the rule table
+	switch r.Intn(4) {
+	case 0:
+		if len(feeds) > 0 {
+			c.StreamNames[3] = feeds[r.Intn(len(feeds))]
+		}
+	case 1:
+		c.StreamNames[3] = []string{"deleteall", " deleteAll", "deleteAll/", "/deleteAll", "DeleteAll", "deleteAll "}[r.Intn(6)]
 	}
 }
 
